@@ -30,10 +30,12 @@ TIERS = {
 }
 FLOORS = {"quick": {"global_configuration_swaps": 300, "distinct_nontrivial": 1500, "formatter_checks": 40000, "palette_accessor_checks": 3000,
                     "pending_chains_resolved_later": 200, "conflicting_late_descriptions_ignored": 1000,
-                    "synced_palette_checks": 200, "no_color_checks": 1000},
+                    "synced_palette_checks": 200, "no_color_checks": 1000,
+                    "palettes_obtained_through_the_user_helper": 20000},
           "thorough": {"distinct_nontrivial": 60000, "formatter_checks": 2000000, "palette_accessor_checks": 150000,
                        "pending_chains_resolved_later": 10000, "conflicting_late_descriptions_ignored": 50000,
-                       "synced_palette_checks": 10000, "no_color_checks": 50000}}
+                       "synced_palette_checks": 10000, "no_color_checks": 50000,
+                       "palettes_obtained_through_the_user_helper": 500000}}
 LEVEL_TEXT = ("Runtime exploration over registration histories: the same description set is pushed through the real "
               "ColorsConfig in several splits/orders and, after every step, every formatter is compared with an "
               "independent inheritance resolver through the SGR terminal model.")
@@ -308,17 +310,35 @@ def run_history(ctx, items, plan, mode, case):
                     p = pcls(synced=True) if synced else pcls(conf, mode == "no_color")
             except Exception as err:
                 fail("palette-construction-raises", {"type": type(err).__name__, "msg": str(err)[:150]})
+            views = [("accessor", p)]
+            if not isinstance(pcls, tuple) and not synced:
+                # the same palette as a class that uses colours obtains it (the PaletteUser helper): from its
+                # declared palette class, from a class given by the caller, from a ready palette object
+                user = type("VfUser", (akcolor.PaletteUser,), {"PALETTE_CLASS": pcls})
+                bare = type("VfOtherUser", (akcolor.PaletteUser,), {"PALETTE_CLASS": VfStablePalette})
+                try:
+                    views += [("user:declared-class", user._mk_palette(None, mode == "no_color", conf)),
+                              ("user:given-class", bare._mk_palette(pcls, mode == "no_color", conf)),
+                              ("user:given-object", bare._mk_palette(p, mode == "no_color", None))]
+                except Exception as err:
+                    fail("palette-construction-raises", {"type": type(err).__name__, "msg": str(err)[:150],
+                                                         "route": "PaletteUser"})
             for acc, sid in accessors.items():
                 if sid not in registered:
                     continue
                 want, _ = want_of(sid)
-                got = shown_state(getattr(p, acc))
-                ctx.count("palette_accessor_checks")
-                if synced:
-                    ctx.count("synced_palette_checks")
-                if got != want:
-                    fail("synced-palette-is-stale" if synced else "palette-accessor-differs",
-                         {"id": sid, "step": tag, "shown": repr(got), "expected": repr(want)})
+                for via, pv in views:
+                    # (Palette.get_color is not used: its documentation speaks of syntax ids, its table is keyed
+                    # by accessor names - what it should return is left open)
+                    got = shown_state(getattr(pv, acc))
+                    ctx.count("palette_accessor_checks")
+                    if via != "accessor":
+                        ctx.count("palettes_obtained_through_the_user_helper")
+                    if synced:
+                        ctx.count("synced_palette_checks")
+                    if got != want:
+                        fail("synced-palette-is-stale" if synced else "palette-accessor-differs",
+                             {"id": sid, "step": tag, "via": via, "shown": repr(got), "expected": repr(want)})
 
     palettes = []
     try:
